@@ -276,6 +276,38 @@ def scale_many(A, B):
     return conv(A), conv(B)
 
 
+
+# --------------------------------------------------------------------------------------- L-BFGS-B wrapper
+def run_lbfgsb(a):
+    """two solves on ONE LBFGSB object (the second must not depend on the first) + what C13 states about the result"""
+    import numpy as np
+    import pyttb as ttb
+    from pyttb.gcp import optimizers, fg
+    q = dict(a)
+    q["sparse"] = False
+    X, M0, _ = _mk_problem(q)
+    fh, gh, lb = _objective(q)
+    mask = None if a["mask"] is None else np.array(a["mask"], dtype=float).reshape(tuple(a["shape"]), order="F")
+    calls = []
+    user_cb = (lambda xk: calls.append(1)) if a["callback"] else None
+    opt = optimizers.LBFGSB(maxiter=a["maxiter"], callback=user_cb)
+    before = dict(opt._solver_kwargs)
+    f0 = float(fg.evaluate(M0, X, mask, fh, None))
+    outs = []
+    for rep in range(2):
+        init = M0.copy()
+        res, info = opt.solve(init, X, fh, gh, lb, mask)
+        f_end = float(fg.evaluate(res, X, mask, fh, None))
+        outs.append({"final_f": _fr(info["final_f"]), "f_end": _fr(f_end),
+                     "min_entry": min(float(np.min(f)) for f in res.factor_matrices),
+                     "flat": [_fr(v) for f in res.factor_matrices for v in f.ravel(order="F")],
+                     "init_unchanged": all(np.array_equal(x, y) for x, y in zip(init.factor_matrices, M0.factor_matrices)),
+                     "shapes_ok": [f.shape for f in res.factor_matrices] == [f.shape for f in M0.factor_matrices]})
+    after = opt._solver_kwargs
+    restored = after.get("callback") is user_cb and all(after[k] == before[k] or (after[k] is before[k]) for k in before if k not in ("callback", "pgtol"))
+    return {"f0": _fr(f0), "outs": outs, "lb": (None if lb == -np.inf else lb), "callback_restored": bool(restored),
+            "callback_called": len(calls) > 0 if a["callback"] else None}
+
 # --------------------------------------------------------------------------------------- brute-force oracle
 def _cell(shape, data, sub):
     k, mul = 0, 1
@@ -317,13 +349,27 @@ def oracle(op, a, o):
     if op in ("solve", "solve_trace"):
         ests = [Fraction(x) for x in o["ests"]]
         trace = [Fraction(x) for x in o["trace"]]
-        if trace != ests:
+        if op == "solve_trace" and trace != ests:
             return f"trace has {len(trace)} values, the start plus {len(ests) - 1} completed epochs were estimated"
         best = min(ests)
+        if not o["ret_cands"]:
+            return "returned model is none of the models held at an epoch boundary"
         if not any(ests[k] == best for k in o["ret_cands"]):
-            return "returned model is not a boundary model with the smallest estimate"
+            return f"returned model is the boundary model #{o['ret_cands']} but the smallest estimate {float(best)} belongs to #{ests.index(best)}"
         if not (o["lb_ok"] or 0 in o["ret_cands"]):
             return f"returned factor entry {o['min_entry']} below the lower bound"
+        return None
+    if op == "lbfgsb":
+        f0 = Fraction(o["f0"])
+        for k, r in enumerate(o["outs"]):
+            if Fraction(r["final_f"]) > f0 or Fraction(r["f_end"]) > f0:
+                return f"L-BFGS-B solve #{k + 1} returned objective {float(Fraction(r['f_end']))} above the starting objective {float(f0)}"
+            if o["lb"] is not None and r["min_entry"] < o["lb"]:
+                return f"factor entry {r['min_entry']} below the lower bound {o['lb']}"
+        if o["outs"][0]["flat"] != o["outs"][1]["flat"]:
+            return "second solve on the same LBFGSB object differs from the first identical solve"
+        if not o["callback_restored"]:
+            return "the user's callback slot was not restored after the solve"
         return None
     if op == "reuse":
         for k, (r, f) in enumerate(zip(o["reused"], o["fresh"])):
